@@ -35,7 +35,8 @@ RULE = ("scenarios as C17 on pools (1,2),(2,3),(2,5) plus every one of the 24 wr
 
 def main(run):
     build_harness()
-    ok, log = proof_obligations(run, PID, extra_obligations=1, extra_names=["correspondence_C06: Pool/Check.v check_cap / check_req = []"])
+    regen_pool()
+    ok, log = proof_obligations(run, PID, extra_obligations=2, extra_names=["T3: pool wrappers shape obligation (obligations/GenPoolOk.v)", "correspondence_C06: Pool/Check.v check_cap / check_req = []"])
     rng = random.Random(run.seed)
     scs = make_scenarios(rng, run.tier)
     run.log("running %d pool scenarios" % len(scs))
@@ -52,9 +53,12 @@ def main(run):
         seen.add(code)
         run.report({"kind": "pool-scenario", "symptom": code}, {"scenario": strip(byid[sid]), "observation": {k: ob[sid].get(k) for k in ("snaps", "stuck", "reqs", "crash", "stderr")}, "disagreement": CAP_CODES[code]},
                    "C06: pool (%d,%d): %s" % (byid[sid]["min"], byid[sid]["max"], CAP_CODES[code]))
+    bad_shape = shape_report(run, PID, 'wrappers', bool(run.violations)) if ok else []
     if not ok and not run.violations:
         run.report({"kind": "proof", "theorem": PID}, {"theorem": "Props/C06.v", "log": log[-3000:]}, "C06: the Coq development no longer builds and no failing history was found", no_input=True)
     cov = run.coverage
+    if ok and not bad_shape:
+        cov["discharged"] += 1
     if not mine:
         cov["discharged"] += 1
     methods = sorted(set(st["method"] for s in scs for st in s["steps"] if st["op"] == "req"))
